@@ -120,13 +120,14 @@ impl DefaultMetricSearcher {
         filenames: &[PathBuf],
         begin_time_ms: u64,
     ) -> Result<(SeekFrom, usize)> {
-        let cache_ok = self.is_position_in_time_for(begin_time_ms)?;
+        // a cached position that cannot be read back (e.g. its index file is gone or still empty) is just not used
+        let cache_ok = self.is_position_in_time_for(begin_time_ms).unwrap_or(false);
         let mut i = 0;
         let mut offset_in_idx = SeekFrom::Start(0);
         let cached_pos = self.cached_pos.lock().unwrap();
         if cache_ok {
             for (j, v) in filenames.iter().enumerate() {
-                if v != &cached_pos.metric_filename {
+                if v == &cached_pos.metric_filename {
                     i = j;
                     offset_in_idx = cached_pos.cur_offset_in_idx;
                     break;
